@@ -1,17 +1,13 @@
 package main
 
 import (
-	"fmt"
 	"os"
 	"rvcheck/rv"
-	"golang.org/x/tools/go/ssa"
 )
 
 func main() {
-	p, err := rv.Load("/repo", "", "")
+	p, err := rv.Load(os.Args[1], "", "")
 	if err != nil { panic(err) }
-	fn := p.Fn(os.Args[1])
+	fn := p.Fn(os.Args[2])
 	fn.WriteTo(os.Stdout)
-	_ = fmt.Sprint
-	_ = ssa.Value(nil)
 }
